@@ -11,12 +11,12 @@ import (
 )
 
 type verifSites struct {
-	schemas   []*Schema
-	params    []*Parameter
-	responses []*Response
-	ops       []*Operation
-	headers   []*Header
-	medias    []*MediaType
+	schemas    []*Schema
+	params     []*Parameter
+	responses  []*Response
+	ops        []*Operation
+	headers    []*Header
+	medias     []*MediaType
 	schemaRefs []*SchemaRef
 }
 
@@ -143,7 +143,7 @@ func verifLoadBase() *T {
 	return doc
 }
 
-//verif:harness id=C04 tier=quick,thorough witness=end,violated bounds="conforming document using every object kind x 28 rules x every position of the rule's subject collected by walkers (schemas at 15+ positions, parameters, responses, operations, headers, media types, reference wrappers) x validation options relevant to the rule; default-vs-minimum is symbolic (all float64); a violation is rejected at every position and each option switches off only its own rule"
+//verif:harness id=C04 tier=quick,thorough witness=end,violated bounds="conforming document using every object kind x 30 rules x every position of the rule's subject collected by walkers (schemas at 15+ positions, parameters, responses, operations, headers, media types, reference wrappers) x validation options relevant to the rule; default-vs-minimum is symbolic (all float64); a violation is rejected at every position and each option switches off only its own rule"
 func verifH_C04_rules() {
 	doc := verifLoadBase()
 	if doc == nil {
@@ -152,7 +152,7 @@ func verifH_C04_rules() {
 	ctx := context.Background()
 	verifAssert(doc.Validate(ctx) == nil, "C04: the conforming document is accepted")
 	sites := verifCollectSites(doc)
-	rule := verifChoose("rule", 28)
+	rule := verifChoose("rule", 30)
 	var opts []ValidationOption
 	disabled := false // the applied violation's rule is switched off by the options
 	pickSchema := func() *Schema { return sites.schemas[verifChoose("site", len(sites.schemas))] }
@@ -298,6 +298,34 @@ func verifH_C04_rules() {
 		case 3:
 			ss.Flows = nil
 		}
+	case 28: // a declared path parameter that the template does not contain (path item level or operation level)
+		extra := &ParameterRef{Value: &Parameter{Name: "zz", In: "path", Required: true, Schema: &SchemaRef{Value: &Schema{Type: &Types{"string"}}}}}
+		var items []*PathItem
+		for _, k := range doc.Paths.InMatchingOrder() {
+			items = append(items, doc.Paths.Value(k))
+		}
+		pi := items[verifChoose("site", len(items))]
+		if verifChoose("how", 2) == 0 {
+			pi.Parameters = append(pi.Parameters, extra)
+		} else {
+			for _, op := range pi.Operations() {
+				op.Parameters = append(op.Parameters, extra)
+				break
+			}
+		}
+	case 29: // illegal style/explode cell at any parameter position: deepObject needs explode, cookie has only form
+		p := sites.params[verifChoose("site", len(sites.params))]
+		f := false
+		switch p.In {
+		case "query":
+			p.Style, p.Explode = "deepObject", &f
+		case "cookie":
+			p.Style = "simple"
+		case "header":
+			p.Style = "label"
+		default:
+			p.Style = "deepObject"
+		}
 	case 27: // ill-formed server
 		if verifChoose("how", 2) == 0 {
 			doc.Servers[0].URL = ""
@@ -347,5 +375,55 @@ func verifH_C04_options() {
 		sites.schemaRefs[0].Ref, sites.schemaRefs[0].Value = "#/components/schemas/Nope", nil
 	}
 	verifAssert(doc.Validate(ctx, opts...) != nil, "C04 options: an option does not switch off checks it does not name")
+	verifReach("end")
+}
+
+//verif:harness id=C04 tier=quick,thorough witness=end,legal,illegal bounds="the whole parameter location x style x explode table: in in {path,query,header,cookie} x style in {absent,matrix,label,form,simple,spaceDelimited,pipeDelimited,deepObject,bogus} x explode in {absent,true,false}: Parameter.Validate accepts exactly the cells of the OpenAPI 3.0 style table (deepObject only exploded)"
+func verifH_C04_style_table() {
+	in := []string{"path", "query", "header", "cookie"}[verifChoose("in", 4)]
+	style := []string{"", "matrix", "label", "form", "simple", "spaceDelimited", "pipeDelimited", "deepObject", "bogus"}[verifChoose("style", 9)]
+	p := &Parameter{Name: "p", In: in, Style: style, Required: in == "path", Schema: &SchemaRef{Value: &Schema{Type: &Types{"string"}}}}
+	var explode *bool
+	switch verifChoose("explode", 3) {
+	case 1:
+		t := true
+		explode = &t
+	case 2:
+		f := false
+		explode = &f
+	}
+	p.Explode = explode
+	// effective values as the library documents them (Parameter.SerializationMethod): style and
+	// explode default per location (query/cookie: form, exploded; path/header: simple, not exploded)
+	eff := style
+	if eff == "" {
+		if in == "query" || in == "cookie" {
+			eff = "form"
+		} else {
+			eff = "simple"
+		}
+	}
+	ex := in == "query" || in == "cookie"
+	if explode != nil {
+		ex = *explode
+	}
+	legal := false
+	switch in {
+	case "path":
+		legal = eff == "simple" || eff == "label" || eff == "matrix"
+	case "query":
+		legal = eff == "form" || eff == "spaceDelimited" || eff == "pipeDelimited" || (eff == "deepObject" && ex)
+	case "header":
+		legal = eff == "simple"
+	case "cookie":
+		legal = eff == "form"
+	}
+	err := p.Validate(context.Background())
+	verifAssert((err == nil) == legal, "C04 style table: a parameter is accepted exactly for the legal location/style/explode cells")
+	if legal {
+		verifReach("legal")
+	} else {
+		verifReach("illegal")
+	}
 	verifReach("end")
 }
